@@ -26,7 +26,9 @@ type c05RegHistStep struct {
 }
 
 func (s c05RegHistStep) String() string {
-	short := func(e string) string { return strings.TrimSuffix(strings.TrimPrefix(e, "https://"), ".example.com/saml/metadata") }
+	short := func(e string) string {
+		return strings.TrimSuffix(strings.TrimPrefix(e, "https://"), ".example.com/saml/metadata")
+	}
 	switch s.N {
 	case "Put":
 		return fmt.Sprintf("put(%s=%s/v%d)", s.Name, short(s.E), s.V)
